@@ -21,7 +21,8 @@ EXPLANATION = (
     " (R1b) the local ParquetWriter is opened on the temp file's path (not on the already-open handle), so close() flushes every byte before the fsync."
     ' (R5) a failing content write / file fsync / writer close / rename leaves the publisher as an exception (handlers on the way re-raise).'
     ' (R6) _get_arrow_filesystem returns a filesystem object only for the S3 backend, so local data files always take the temp + fsync + rename branch.'
-    ' (R9) storage effects are synchronous: nothing handed to an executor / thread / timer writes or deletes through the storage layer (function values followed).')
+    ' (R9) storage effects are synchronous: nothing handed to an executor / thread / timer writes or deletes through the storage layer (function values followed).'
+    ' (R10) every os.open feeding an fsync carries no O_PATH / write flags; R1 / R4 / R5 accept a buffered temp file (os.fdopen) only with a flush() between the write and the fsync.')
 NOT_DECIDED = "replay of the syscall trace in a power-loss model; filesystem semantics of fsync/rename"
 
 
@@ -170,10 +171,10 @@ def local_writes_take_the_durable_branch(ctx: Ctx, rid: str = "C16.R6") -> None:
     from .common import facts_at
     f = ctx.fn("data_operations.DataFileManager._get_arrow_filesystem")
     g = ctx.cfg(f)
+    from .common import effective_returns
     rets = [n for n in g.nodes if n.kind == "return" and n.id in g.reachable()]
     n_none = 0
-    for r in rets:
-        v = r.ast.value  # type: ignore[union-attr]
+    for r, v in effective_returns(ctx, f):  # looks through factory helpers analysed in place (`return self._local_fs()`)
         if v is None or (isinstance(v, ast.Constant) and v.value is None):
             n_none += 1
             continue
